@@ -22,7 +22,7 @@ RULE = ("(a) exhaustive: all call sequences of length <= 3 over 6 actions x cate
         "(broker, category, budget, sequence); trivial = none")
 ASSUMPTIONS = ["Redis and RabbitMQ are wire-level fakes", "broker calls are counted by harness-side recorders at the broker boundary (top level only)"]
 EVAL_COUNTER = "calls_judged"
-REQUIRED = ["calls_judged", "refusals_checked", "second_actions_checked", "eager_sequences", "callback_orders_checked", "eager_in_dependency", "sequences_with_refused_retry", "category_by_plain_name"]
+REQUIRED = ["calls_judged", "refusals_checked", "second_actions_checked", "eager_sequences", "callback_orders_checked", "eager_in_dependency", "sequences_with_refused_retry", "category_by_plain_name", "overdrawn_handles"]
 CASE_TIMEOUT = 120
 
 ACTIONS = ("ack", "nack", "reject", "reschedule", "retry", "force_retry")
@@ -35,7 +35,7 @@ def gen_cases(tier, seed):
         maxlen = 3 if kind == "mem" else 2
         seqs = [s for n in range(1, maxlen + 1) for s in itertools.product(ACTIONS, repeat=n)]
         for cat in ("NORMAL", "DELAYED", "DEAD"):
-            for budget in ("left", "spent"):
+            for budget in (("left", "spent", "overdrawn") if cat == "NORMAL" else ("left", "spent")):
                 chunk = 43 if kind == "mem" else 42
                 for i in range(0, len(seqs), chunk):
                     cases.append({"type": "api", "kind": kind, "cat": cat, "budget": budget, "seqs": [list(s) for s in seqs[i:i + chunk]]})
@@ -71,7 +71,7 @@ async def api_sequence(loop, kind, cat, budget, seq, out, stats, fps):
         await mb.queue_declare("q")
         from repid import Job
 
-        retries = 2 if budget == "left" else 0
+        retries = 2 if budget == "left" else 0  # "overdrawn": forced past the budget first (already_tried > max_amount)
         kw = {}
         if cat == "DELAYED":
             kw["deferred_until"] = datetime.now() + timedelta(hours=1)
@@ -88,6 +88,13 @@ async def api_sequence(loop, kind, cat, budget, seq, out, stats, fps):
         stats["category_by_plain_name" if plain_name else "category_by_enum_member"] += 1
         agen = q.get_messages(category=cat if plain_name else MessageCategory(cat))
         msg = await asyncio.wait_for(agen.__anext__(), 10)
+        if budget == "overdrawn":
+            await msg.force_retry(timedelta(0))  # back in the queue at once, one attempt beyond its budget of 0
+            msg = await asyncio.wait_for(agen.__anext__(), 10)
+            stats["overdrawn_handles"] += 1
+            if msg.parameters.retries.already_tried <= msg.parameters.retries.max_amount:
+                out.append(V("wrong_broker_calls", kind, "force_retry/counter", f"after a forced retry of a job with retries=0 the redelivered message carries already_tried={msg.parameters.retries.already_tried}"))
+            budget = "spent"
         used = False
         ctxb = f"{cat}/{budget}"
         for i, action in enumerate(seq):
